@@ -95,6 +95,8 @@ class Session:
     def check_supers(self, ir, t, what, depth=0):
         if depth > 6 or t is None or t[0] not in ('i', 'c'):
             return
+        if rm.has_kind(t, ('v',)):
+            return      # the property speaks about type-variable-free arguments
         want = self.ref_supers(t)
         if want is None:
             return
